@@ -25,8 +25,8 @@ use rs_matter::utils::storage::pooled::{Buffers, PooledBuffers};
 
 use crate::common::{self, e2, vclock, Ctx, Evidence, Report, Tier};
 
-const NSUB: usize = 2;
-type Pool = PooledBuffers<IMBuffer, 4>;
+const NSUB: usize = 3;
+type Pool = PooledBuffers<IMBuffer, 5>;
 type Bufs = SubscriptionsBuffers<'static, Pool, NSUB>;
 type RCtx = ReportContext<'static, 'static, Pool, NSUB>;
 
@@ -128,6 +128,10 @@ impl Drop for Sys {
     }
 }
 
+fn request_of(k: usize) -> [u8; 8] {
+    [0x15, 0x36, k as u8, 0xA0 + k as u8, 0x18, 0x18, 0xEE, k as u8]
+}
+
 fn node_of(k: u8) -> u64 {
     100 + k as u64
 }
@@ -142,8 +146,8 @@ impl Sys {
             subs,
             pool,
             bufs,
-            flights: [None, None],
-            refs: [SubRef::default(), SubRef::default()],
+            flights: [None, None, None],
+            refs: [SubRef::default(), SubRef::default(), SubRef::default()],
             version: [1, 1, 1],
             events: 0,
             ticks: 0,
@@ -182,14 +186,20 @@ impl Sys {
         if self.refs[k].live || self.flights[k].is_some() {
             return false;
         }
-        let Some(buf) = self.pool().get_immediate() else {
+        let Some(mut buf) = self.pool().get_immediate() else {
             return false;
         };
+        // the stored request of this subscriber (stands for its paths and filters)
+        buf.clear();
+        let _ = buf.extend_from_slice(&request_of(k));
         let ctx = self.subs().verif_add(Instant::now(), NonZeroU8::new(1).unwrap(), node_of(k as u8), MIN_INT, MAX_INT, self.events, buf, self.bufs());
         let Some(ctx) = ctx else {
             return false;
         };
         let id = ctx.subscription().ids().id;
+        if ctx.rx() != &request_of(k)[..] {
+            self.fail("C13:model:report-built-from-another-subscription's-request", format!("the priming context of subscriber {} carries the request {:02x?}", k, ctx.rx()));
+        }
         self.refs[k] = SubRef { live: true, established: false, sub_id: id, known: [None; 3], known_event: 0, last_success_ms: None, fails_since_success: 0 };
         let ev_range = (ctx.max_seen_event_number(), ctx.next_max_seen_event_number());
         self.flights[k] = Some(Flight { ctx: Some(ctx), kind: Kind::Priming, carry: [None; 3], read1: false, read2: false, ev_range, start_ms: self.now_ms() });
@@ -330,6 +340,10 @@ impl Sys {
                     return true;
                 };
                 let now_ms = now.as_millis();
+                if ctx.rx() != &request_of(k)[..] {
+                    self.fail("C13:model:report-built-from-another-subscription's-request", format!("the report context of subscriber {} carries the request {:02x?} (its own is {:02x?}): its report is built for somebody else's paths", k, ctx.rx(), request_of(k)));
+                    return true;
+                }
                 let r = &self.refs[k];
                 // a report attempt later than last success + max interval must not happen
                 if let Some(ls) = r.last_success_ms {
@@ -432,8 +446,9 @@ impl Sys {
     /// deadlines. Returns the first violated expectation.
     fn quiesce_and_check(&mut self, all_fail: bool) -> Option<(String, String)> {
         for round in 0..16 {
-            // complete everything in flight
-            for k in 0..NSUB {
+            // complete everything in flight (completing one report makes the reporter start the next, possibly
+            // for a subscriber with a lower index: go round until nothing is in flight)
+            for k in (0..NSUB).cycle().take(NSUB * 4) {
                 if self.flights[k].is_some() {
                     self.read(k, 1);
                     self.read(k, 2);
@@ -554,6 +569,7 @@ fn op_from(s: &str) -> Op {
     let all = [
         Op::Add(0), Op::Add(1), Op::ReadAll(0), Op::ReadAll(1), Op::Read1(0), Op::Read1(1), Op::Read2(0), Op::Read2(1), Op::DoneOk(0), Op::DoneOk(1), Op::DoneFail(0), Op::DoneFail(1),
         Op::Change(0), Op::Change(1), Op::Change(2), Op::ChangeCluster, Op::ChangeEndpoint, Op::ChangeManyOther, Op::Event, Op::Reporter, Op::Remove(0), Op::Remove(1),
+        Op::Add(2), Op::ReadAll(2), Op::Read1(2), Op::Read2(2), Op::DoneOk(2), Op::DoneFail(2), Op::Remove(2),
         Op::Tick(0), Op::Tick(1), Op::Tick(2),
     ];
     *all.iter().find(|o| format!("{:?}", o) == s).unwrap_or_else(|| panic!("bad op {}", s))
@@ -633,12 +649,21 @@ pub fn run(ctx: &Ctx) -> i32 {
     let quiesces = std::cell::Cell::new(0u64);
     let inside = std::cell::Cell::new(0u64);
     let outcomes = std::cell::RefCell::new(std::collections::BTreeSet::new());
-    let stats = {
+    // a full table: three established subscriptions with different requests, explored with an alphabet
+    // that removes / fails / re-adds any of them (what a removal does to the entries that stay)
+    let three: Vec<Op> = (0..3u8).flat_map(|k| [Op::Add(k), Op::ReadAll(k), Op::DoneOk(k)]).collect();
+    let ops3 = vec![Op::Remove(0), Op::Remove(1), Op::Remove(2), Op::Change(0), Op::Event, Op::Tick(0), Op::Reporter, Op::ReadAll(0), Op::ReadAll(1), Op::ReadAll(2), Op::DoneOk(0), Op::DoneOk(1), Op::DoneOk(2), Op::DoneFail(0), Op::DoneFail(1), Op::DoneFail(2), Op::Tick(2), Op::Add(0)];
+    let depth3 = if ctx.tier == Tier::Quick { 5 } else { 7 };
+    let mut stats = e2::Stats { states: 0, transitions: 0, max_depth: 0, frontier_left: 0 };
+    for (roots, depth, ops) in [
+        // besides the initial state: established subscriptions whose attribute-change and event
+        // watermarks have diverged (either way round)
+        (vec![vec![], vec![Op::Change(0), Op::Add(0), Op::ReadAll(0), Op::DoneOk(0)], vec![Op::Event, Op::Event, Op::Add(0), Op::ReadAll(0), Op::DoneOk(0)]], depth, ops.clone()),
+        (vec![three.clone()], depth3, ops3.clone()),
+    ] {
         let rep = std::cell::RefCell::new(&mut report);
-        e2::bfs(
-            // besides the initial state: established subscriptions whose attribute-change and event
-            // watermarks have diverged (either way round)
-            vec![vec![], vec![Op::Change(0), Op::Add(0), Op::ReadAll(0), Op::DoneOk(0)], vec![Op::Event, Op::Event, Op::Add(0), Op::ReadAll(0), Op::DoneOk(0)]],
+        let st = e2::bfs(
+            roots,
             depth,
             |h: &[Op]| build(h),
             |_| ops.clone(),
@@ -685,8 +710,11 @@ pub fn run(ctx: &Ctx) -> i32 {
                 true
             },
             |s| s.key(),
-        )
-    };
+        );
+        stats.states += st.states;
+        stats.transitions += st.transitions;
+        stats.max_depth = stats.max_depth.max(st.max_depth);
+    }
     // ---- wire level
     let (wire_report, wire_execs, wire_obs, wire_classes, wire_capped) = match super::c13w::explore(ctx.tier) {
         Ok(r) => r,
@@ -696,7 +724,7 @@ pub fn run(ctx: &Ctx) -> i32 {
         }
     };
     report.merge(wire_report);
-    if wire_classes < 3 {
+    if report.violations.is_empty() && (wire_classes < 3) {
         eprintln!("MACHINERY: vacuous C13 wire-level run ({} outcome classes)", wire_classes);
         return 2;
     }
@@ -716,10 +744,10 @@ pub fn run(ctx: &Ctx) -> i32 {
         .set("exhaustive", json!(true))
         .set("samples", json!([{"ops": ["Add(0)", "Read1(0)", "Change(0)", "Reporter", "Read2(0)", "DoneOk(0)"], "then": "quiesce: follow the table's own deadlines until every subscriber knows every current value"}]))
         .set("vacuity", json!({"quiesce_runs": quiesces.get(), "changes_inside_a_priming_report": inside.get(), "distinct_quiesce_outcomes": outcomes.borrow().len(), "max_depth": stats.max_depth}))
-        .set("rule", json!(format!("BFS depth {} over {} operations (subscribe, two-chunk report reads, report ok/fail, attribute / cluster / endpoint changes, event emission, 17 unrelated changes forcing coalescing, reporter iteration = remove-expired + report()-or-purge, unsubscribe, ticks of 1/21/41 s) on Subscriptions<2>, from the initial state and from two states with an established subscription whose change-id and event-number watermarks differ; in every visited state two bounded-liveness runs (all further reports succeed / all fail)", depth, ops.len())));
+        .set("rule", json!(format!("BFS depth {} over {} operations (subscribe, two-chunk report reads, report ok/fail, attribute / cluster / endpoint changes, event emission, 17 unrelated changes forcing coalescing, reporter iteration = remove-expired + report()-or-purge, unsubscribe, ticks of 1/21/41 s) on Subscriptions<3>, from the initial state and from two states with an established subscription whose change-id and event-number watermarks differ, and depth {} from a full table of three established subscriptions with different stored requests (every report context must carry the request of its own subscription); in every visited state two bounded-liveness runs (all further reports succeed / all fail)", depth, ops.len(), depth3)));
     ev.assume("model level: attribute reads are represented by should_report_attr decisions at read time; an event is represented by its number, a report carries the event numbers (lo, hi] its context captured; the wire and chunk encoding are covered at the wire level and in C14");
     ev.assume("'eventually' is decided as: within 16 reporter iterations at the deadlines the table announces, with no further changes");
-    if quiesces.get() == 0 || outcomes.borrow().len() < 2 {
+    if report.violations.is_empty() && (quiesces.get() == 0 || outcomes.borrow().len() < 2) {
         eprintln!("MACHINERY: vacuous C13 run");
         return 2;
     }
